@@ -57,7 +57,7 @@ func (e *clockEngine) Property() string  { return e.prop }
 func (e *clockEngine) NumCases(tier string) int {
 	n := 8000
 	if tier == "thorough" {
-		n = 400000
+		n = 4000000
 	}
 	if e.name == "sleepcancel" {
 		n /= 8
